@@ -408,4 +408,32 @@ def r08_induction(ctx):
     smf.inductive_agreement(ctx, ai, 'R08.2', 'R08.3')
 
 
-RULES = [('R08-induction', r08_induction), ('R08.2', r08_writer), ('R08.3', r08_reader), ('R08.5', r08_clip), ('R08.1', r08_vlq), ('R08.4', r08_header), ('R08.6', r08_debug)]
+def r08_alien_chunks(ctx):
+    """SMF 1.0: a reader must skip chunk types it does not know ("programs should ignore chunk types they do not expect").
+    A conformant file with a proprietary chunk before or between the track chunks loads to its tracks."""
+    ai = strict_interp(ctx)
+    mf = ctx.p.cls(smf.MF, 'MidiFile')
+    o, load = ctx.p.lookup_method(mf, '_load')
+    ctx.fn(load)
+    t = smf.tsym('t')
+    trk = [VLQ(t), 0x93, smf.sym('n', 127), smf.sym('v', 127), VLQ(0), 0xff, 0x2f, VLQ(0)]
+    alien = [Field('4s', b'XFIH'), Field('L', 3), 1, 2, 3]
+    mtrk = [Field('4s', b'MTrk'), Field('L', wire.size_of(trk))] + trk
+    hdr = [Field('4s', b'MThd'), Field('L', 6), Field('h', 1), Field('h', 1), Field('h', 480)]
+    n = 0
+    for label, stream in (('before the track', hdr + alien + mtrk), ('after the track', hdr + mtrk + alien)):
+        outs = ai.explore(lambda: ai.apply(ClassRef(mf), [], {'file': wire.AFile(stream=list(stream), name='in')}, None))
+        n += 1
+        ok = len(outs) == 1 and outs[0].kind == 'return'
+        if ok:
+            tr = outs[0].value.attrs.get('tracks')
+            ok = isinstance(tr, AList) and len(tr.items) == 1
+        ctx.require(ok, 'R08.3', f'load(file with an unknown chunk {label})', ctx.where(load),
+                    f'a conformant file with a chunk of unknown type {label} gives {outs}; the chunk must be skipped',
+                    construct=f'{load.qname}::unknown-chunk')
+    ctx.floor('R08.3-alien', n, 2)
+    for q in ai.inlined:
+        ctx.functions.add(q)
+
+
+RULES = [('R08-alien', r08_alien_chunks), ('R08-induction', r08_induction), ('R08.2', r08_writer), ('R08.3', r08_reader), ('R08.5', r08_clip), ('R08.1', r08_vlq), ('R08.4', r08_header), ('R08.6', r08_debug)]
